@@ -12,7 +12,7 @@ from core import *
 
 NEEDS = ["DDE", "DDEProofs", "History", "HistoryProofs", "Corr"]
 VARPOOL = ["x", "z", "v", "u", "r", "a", "w", "s", "g", "m"]
-GUARDS = ["past_terms_printable", "dt_fmt_exact", "edge_delay_not_one", "edge_delay_above_step"]
+GUARDS = ["edge_delay_above_step"]
 
 # ---------------------------------------------------------------------------------------------- impl side (worker)
 def _dec(q):
@@ -175,7 +175,7 @@ def gen_points(rng, case, nv, npar, delay_pars):
     return pts
 
 def rhs_printable(r):
-    """Python mirror of DDE.rhs_ok && DDE.rhs_share_ok, used only to keep the valid stream inside the guard (the verdict uses the Coq guard)"""
+    """Python mirror of DDE.past_terms_printable (the class that failed before fix D38); statistics only"""
     keys = [[(f[1], tuple(f[2])) for f in fs if f[0] == "past"] for _, fs in r]
     if len(r) > 1 and any(ks and Fr(c) < 0 for (c, _), ks in zip(r, keys)):
         return False
@@ -221,8 +221,7 @@ def gen_func(rng, neg_class=False, dt_class=False):
             if npast and nterms > 1 and c < 0:
                 c = -c                      # inside the guard past_terms_printable; negative feedback comes from parameters
             r.append([str(c), fs])
-        if rhs_printable(r):
-            break
+        break
       eqs.append(r)
     if use_t and not any(f[0] in ("real", "sign") for r in eqs for _, fs in r for f in fs):
         eqs[0].append(["1/2", [["sign", "5/16"], ["v", 0]]])
@@ -234,13 +233,16 @@ def gen_func(rng, neg_class=False, dt_class=False):
                  ([[("1"), [["p", 0]]]] if rng.random() < 0.5 else []) + \
                  [[str(-Fr(rng.choice([1, 2, 4]), 4)), [past()] + ([["v", rng.randrange(nv)]] if rng.random() < 0.3 else [])]]
     dt = rng.choice([Fr(1, 8), Fr(1, 4), Fr(1, 16), Fr(1, 2), Fr(1, 8), Fr(1, 1000), Fr(1, 10)]) if not dt_class else \
-        rng.choice([Fr(1, 2) + Fr(1, 2 ** 40), Fr(1, 8) + Fr(1, 2 ** 45), Fr(1, 4) + Fr(3, 2 ** 42)])
+        rng.choice([Fr(1, 2) + Fr(1, 2 ** 30), Fr(1, 8) + Fr(1, 2 ** 33), Fr(1, 4) + Fr(3, 2 ** 32)])
     if dt.denominator & (dt.denominator - 1):          # decimal step sizes: the float nearest to them
         dt = Fr(float(dt))
         if solver == "euler":
             solver = "scipy"                             # t*dt is not exact in floats for fixed steps; adaptive code does not use dt
     if dt_class:
         solver = "euler"
+        # t*dt has ~40 significant bits: at most one delayed and one other factor per term keeps float64 exact
+        eqs = [[[c, [f for f in fs if f[0] == "past"][:1] + [f for f in fs if f[0] in ("v", "p")][:1]] for c, fs in r] for r in eqs]
+        use_t = False
     case = dict(kind="func", vars=vars_, init=[str(Fr(rng.randint(-8, 8), 8)) for _ in range(nv)], parnames=parnames,
                 parinit=[str(Fr(rng.randint(1, 12), 8)) for _ in range(npar)], eqs=eqs, solver=solver, dt=str(dt), use_t=use_t)
     case["points"] = gen_points(rng, case, nv, npar, delay_pars)
@@ -350,14 +352,24 @@ def gen_run(rng):
             fs = [["p", 0], base] if rng.random() < 0.4 else [base]
             c = Fr(rng.choice([-2, -1, 1, 2]), rng.choice([1, 2]))
             r.append([str(c), fs])
-        multi = len(r) > 1
-        r = [[str(abs(Fr(c))) if (multi and any(f[0] == "past" for f in fs)) else c, fs] for c, fs in r]
         eqs.append(r)
     if not any(f[0] == "past" for r in eqs for _, fs in r for f in fs):
         eqs[0] = [["1", [["p", 0], ["past", delayed, delay(), 1]]]]
     case = dict(kind="run", vars=vars_, init=[str(Fr(rng.randint(-4, 4), 2)) for _ in range(nv)], parnames=parnames, parinit=parinit,
                 eqs=eqs, solver="euler", dt=str(dt), steps=rng.randint(8, 14), use_t=False)
     case["steps"] = max(2, exact_steps(case))
+    return case
+
+def gen_long_run(rng):
+    """one run that crosses the first growth of the history buffer (1024 rows): x' = k0 (exactly linear), v' = x(t-d1) - x(t-d2);
+    the delays are 1.5 and 2.5 steps, so that every step interpolates between the two or three most recent rows"""
+    dt = rng.choice([Fr(1, 4), Fr(1, 8)])
+    vars_ = rng.sample(VARPOOL, 2)
+    case = dict(kind="run", vars=vars_, init=[str(Fr(rng.randint(1, 4), 2)), str(Fr(rng.randint(-4, 4), 2))], parnames=["k0", "d0"],
+                parinit=[str(rng.choice([Fr(1, 2), 1, Fr(-1, 2)])), str(dt * Fr(5, 2))],
+                eqs=[[["1", [["p", 0]]]], [["1", [["past", 0, ["lit", str(dt * Fr(3, 2))], 1]]], ["-1", [["past", 0, ["par", 1], 0]]]]],
+                solver="euler", dt=str(dt), steps=rng.randint(1040, 1100), use_t=False, long=True)
+    assert exact_steps(case) == case["steps"]
     return case
 
 def past_keys(case):
@@ -384,32 +396,25 @@ HEADER = """From Coq Require Import List ZArith QArith Qcanon Bool.
 From PV Require Import History DDE Corr.
 Import ListNotations.
 Definition pt := (Qc * list Qc * list Qc * list (list Qc) * list Qc)%type.
-(* model as compiled (Impl), model as specified (Spec), edge guards, positions, time mode, evaluation points *)
-Definition fcase := (model * model * (bool * bool) * list nat * mode * list pt)%type.
-Definition plain (m : model) : model * model * (bool * bool) := (m, m, (true, true)).
-Definition with_edges (step : Qc) (es : list edge) (base : model) : model * model * (bool * bool) :=
-  (add_edges (edge_factor_impl step es) es base, add_edges edge_factor_spec es base,
-   (edge_delay_not_one es, edge_delay_above_step step es)).
+(* model as compiled (Impl), model as specified (Spec), edge guard, positions, time mode, evaluation points *)
+Definition fcase := (model * model * bool * list nat * mode * list pt)%type.
+Definition plain (m : model) : model * model * bool := (m, m, true).
+Definition with_edges (step : Qc) (es : list edge) (base : model) : model * model * bool :=
+  (add_edges (edge_factor_impl step es) es base, add_edges edge_factor_spec es base, edge_delay_above_step step es).
 Definition okI_pt (m : model) (pos : list nat) (md : mode) (p : pt) : bool :=
-  let '(t, y, par, hp, exp) := p in orow_eqb (impl_eval (polyhist hp) (lookup_nat pos) (lookup_q par) m md t y) exp.
+  let '(t, y, par, hp, exp) := p in row_eqb (impl_eval (polyhist hp) (lookup_nat pos) (lookup_q par) m md t y) exp.
 Definition okS_pt (m : model) (pos : list nat) (md : mode) (p : pt) : bool :=
   let '(t, y, par, hp, exp) := p in row_eqb (spec_eval (polyhist hp) (lookup_nat pos) (lookup_q par) m md t y) exp.
 Definition okI (c : fcase) : bool := let '(mi, ms, g, pos, md, pts) := c in forallb (okI_pt mi pos md) pts.
 Definition okS (c : fcase) : bool := let '(mi, ms, g, pos, md, pts) := c in forallb (okS_pt ms pos md) pts.
-Definition g1 (c : fcase) : bool := let '(mi, ms, g, pos, md, pts) := c in past_terms_printable ms.
-Definition g2 (c : fcase) : bool := let '(mi, ms, g, pos, md, pts) := c in dt_fmt_exact md.
-Definition g3 (c : fcase) : bool := let '(mi, ms, g, pos, md, pts) := c in fst g.
-Definition g4 (c : fcase) : bool := let '(mi, ms, g, pos, md, pts) := c in snd g.
-Definition rcase := (model * list nat * list Qc * Qc * Qc * nat * list Qc * list (list Qc))%type.
+Definition g1 (c : fcase) : bool := let '(mi, ms, g, pos, md, pts) := c in g.
+Definition rcase := (model * list nat * list Qc * Qc * nat * list Qc * list (list Qc))%type.
 Definition rokI (c : rcase) : bool :=
-  let '(m, pos, par, dt, de, n, y0, exp) := c in
-  orows_eqb (run_impl (lookup_nat pos) (lookup_q par) m dt de (fun _ => []) 1024 n y0) exp.
+  let '(m, pos, par, dt, n, y0, exp) := c in
+  orows_eqb (run_impl (lookup_nat pos) (lookup_q par) m dt (fun _ => []) 1024 n y0) exp.
 Definition rokS (c : rcase) : bool :=
-  let '(m, pos, par, dt, de, n, y0, exp) := c in rows_eqb (run_spec (lookup_nat pos) (lookup_q par) m dt n y0) exp.
-Definition rg1 (c : rcase) : bool := let '(m, pos, par, dt, de, n, y0, exp) := c in past_terms_printable m.
-Definition rg2 (c : rcase) : bool := let '(m, pos, par, dt, de, n, y0, exp) := c in dt_fmt_exact (Fixed dt de).
-Definition rg3 (c : rcase) : bool := true.
-Definition rg4 (c : rcase) : bool := true.
+  let '(m, pos, par, dt, n, y0, exp) := c in rows_eqb (run_spec (lookup_nat pos) (lookup_q par) m dt n y0) exp.
+Definition rg1 (c : rcase) : bool := true.
 """
 
 def c_dkey(d):
@@ -434,7 +439,7 @@ def c_model(case):
 def c_mode(case):
     if case["solver"] != "euler":
         return "Adaptive"
-    return f"(Fixed {cq(case['dt'])} {cq(emitted_dt(case))})"
+    return f"(Fixed {cq(case['dt'])})"
 
 def qrow(v):
     return clist([cq(x) for x in v])
@@ -459,7 +464,7 @@ def coq_fcase(case, res):
     return f"({c_models(case)}, {clist([cnat(p) for p in res['pos']])}, {c_mode(case)}, {clist(pts)})"
 
 def coq_rcase(case, res):
-    return (f"({c_model(case)}, {clist([cnat(p) for p in res['pos']])}, {qrow(case['parinit'])}, {cq(case['dt'])}, {cq(emitted_dt(case))}, "
+    return (f"({c_model(case)}, {clist([cnat(p) for p in res['pos']])}, {qrow(case['parinit'])}, {cq(case['dt'])}, "
             f"{cnat(len(res['out']))}, {qrow(case['init'])}, {clist([qrow(r) for r in res['out']])})")
 
 def dummy_res(case):
@@ -471,7 +476,7 @@ def dummy_res(case):
 def model_compare(ctx, cases, outs, tag):
     """returns (bad_vs_Impl, bad_vs_Spec, {index: [violated guards]}) ; cases on which the real code raised only get their guards evaluated"""
     badI, badS, gv = [], [], {}
-    for kind, names, mk in (("f", ("okI", "okS", "g1", "g2", "g3", "g4"), coq_fcase), ("r", ("rokI", "rokS", "rg1", "rg2", "rg3", "rg4"), coq_rcase)):
+    for kind, names, mk in (("f", ("okI", "okS", "g1"), coq_fcase), ("r", ("rokI", "rokS", "rg1"), coq_rcase)):
         idx = [i for i, c in enumerate(cases) if (c["kind"] == "run") == (kind == "r")]
         shard = 80
         for s in range(0, len(idx), shard):
@@ -480,7 +485,7 @@ def model_compare(ctx, cases, outs, tag):
             body = (f"Definition cases : list {'fcase' if kind == 'f' else 'rcase'} := " + clist(terms) + ".\n" +
                     "".join(f"Eval vm_compute in (mismatches {n} cases).\n" for n in names))
             ls = parse_nat_lists(coq_eval(ctx, f"c10_{tag}_{kind}{s}", HEADER, body))
-            assert len(ls) == 6, ls
+            assert len(ls) == 3, ls
             for j in ls[0]:
                 badI.append(part[j])
             for j in ls[1]:
@@ -497,13 +502,13 @@ def model_outputs(ctx, case, res, tag):
             res = dummy_res(case)
         if case["kind"] == "run":
             body = (f"Definition c : rcase := {coq_rcase(case, res)}.\n"
-                    "Eval vm_compute in (let '(m, pos, par, dt, de, n, y0, exp) := c in map (map this) (run_spec (lookup_nat pos) (lookup_q par) m dt n y0)).\n"
-                    "Eval vm_compute in (let '(m, pos, par, dt, de, n, y0, exp) := c in option_map (map (map this)) (run_impl (lookup_nat pos) (lookup_q par) m dt de (fun _ => []) 1024 n y0)).\n")
+                    "Eval vm_compute in (let '(m, pos, par, dt, n, y0, exp) := c in map (map this) (run_spec (lookup_nat pos) (lookup_q par) m dt n y0)).\n"
+                    "Eval vm_compute in (let '(m, pos, par, dt, n, y0, exp) := c in option_map (map (map this)) (run_impl (lookup_nat pos) (lookup_q par) m dt (fun _ => []) 1024 n y0)).\n")
         else:
             body = (f"Definition c : fcase := {coq_fcase(case, res)}.\n"
                     "Eval vm_compute in (let '(mi, m, g, pos, md, pts) := c in map (fun p : pt => let '(t, y, par, hp, exp) := p in map this (spec_eval (polyhist hp) (lookup_nat pos) (lookup_q par) m md t y)) pts).\n"
-                    "Eval vm_compute in (let '(m, ms, g, pos, md, pts) := c in map (fun p : pt => let '(t, y, par, hp, exp) := p in option_map (map this) (impl_eval (polyhist hp) (lookup_nat pos) (lookup_q par) m md t y)) pts).\n"
-                    "Eval vm_compute in (let '(m, ms, g, pos, md, pts) := c in (fst (compile m), past_terms_printable ms, dt_fmt_exact md, g)).\n")
+                    "Eval vm_compute in (let '(m, ms, g, pos, md, pts) := c in map (fun p : pt => let '(t, y, par, hp, exp) := p in map this (impl_eval (polyhist hp) (lookup_nat pos) (lookup_q par) m md t y)) pts).\n"
+                    "Eval vm_compute in (let '(m, ms, g, pos, md, pts) := c in (fst (compile m), g)).\n")
         return "Spec, then Impl:\n" + coq_eval(ctx, f"c10_show_{tag}", HEADER, body)[:5000]
     except Exception as e:
         return f"(model evaluation failed: {e})"
@@ -565,26 +570,21 @@ def check(ctx):
     else:
         # committed witnesses of listed findings run first; an unlisted witness is not exercised (DESIGN 2.3)
         cases = [c for c in corpus if c.get("finding_guard") is None or c.get("finding_guard") in findings]
-        cases += [gen_func(ctx.rng) for _ in range(nf)] + [gen_edge(ctx.rng) for _ in range(ne)] + [gen_run(ctx.rng) for _ in range(nr)]
-        # guard-violating streams, built on purpose from the refuted witnesses, only for listed findings
+        # the classes repaired by D38 / D39 / D40 are part of the deciding stream
+        cases += [gen_func(ctx.rng, neg_class=(i % 6 == 0), dt_class=(i % 11 == 5)) for i in range(nf)]
+        cases += [gen_edge(ctx.rng, one_class=(i % 4 == 0)) for i in range(ne)]
+        cases += [gen_run(ctx.rng) for _ in range(nr)] + [gen_long_run(ctx.rng) for _ in range(1 if ctx.tier == "quick" else 4)]
+        # guard-violating stream, built on purpose from the refuted witness, only for the listed finding
         if GUARDS[0] in findings:
-            cases += [gen_func(ctx.rng, neg_class=True) for _ in range(12 if ctx.tier == "quick" else 120)]
-        if GUARDS[1] in findings:
-            cases += [gen_func(ctx.rng, dt_class=True) for _ in range(6 if ctx.tier == "quick" else 60)]
-        if GUARDS[2] in findings:
-            cases += [gen_edge(ctx.rng, one_class=True) for _ in range(6 if ctx.tier == "quick" else 60)]
-        if GUARDS[3] in findings:
             cases += [gen_edge(ctx.rng, step_class=True) for _ in range(6 if ctx.tier == "quick" else 60)]
     outs = run_impl(ctx, "c10", "impl", cases, per_case_timeout=90)
     outs = [o if isinstance(o, dict) else {"err": "bad-result", "detail": str(o)[:200]} for o in outs]
     crashed = [i for i, r in enumerate(outs) if "out" not in r]
     badI, badS, gv = model_compare(ctx, cases, outs, "main")
-    # the model says None on the class of finding C10-F1: a raise of the real code there is what Impl predicts
-    predicted_raise = [i for i in crashed if GUARDS[0] in gv.get(i, []) and outs[i].get("err") == "raised"]
     kinds = {k: sum(1 for c in cases if c["kind"] == k) for k in ("func", "edge", "run")}
     ctx.note(f"E1: {len(cases)} models {kinds}, {sum(len(c.get('points', [])) for c in cases)} function evaluations, "
              f"{sum(c.get('steps', 0) for c in cases)} Euler steps; impl-vs-Impl mismatches {len(badI)}, impl-vs-Spec mismatches {len(badS)}, "
-             f"real code raised on {len(crashed)} (predicted by the model: {len(predicted_raise)}), guard-violating cases {len(gv)}")
+             f"real code raised on {len(crashed)}, guard-violating cases {len(gv)}")
     def witness_check(f):
         w = os.path.join(VERIF, f["witness"])
         c = json.load(open(w))
